@@ -105,12 +105,18 @@ theorem consumed_bounded (d : Bytes) (f : Frame) (r : Bytes) (h : parseBytes d =
 theorem reserve_bounded (d : Bytes) : reserveOf true (maxNesting + 1) d ≤ 2 * d.length :=
   reserveOf_capped_le _ d
 
+/-- (5b) … and none exceeds a constant (`2·reserveMax` slots), however much is buffered: a chain of nested headers
+    each declaring 10⁸ elements in front of a megabyte of unfinished payload reserves at most
+    `(maxNesting + 1) · 2 · reserveMax` slots in all, not a multiple of the buffered bytes per level. -/
+theorem reserve_bounded_by_constant (d : Bytes) : reserveOf true (maxNesting + 1) d ≤ 2 * reserveMax :=
+  reserveOf_capped_le_const _ d
+
 /-- Tie to the code: the regenerated switches say that /repo's parser is the fixed one, so
     (3) and (5) speak about the current tree.  Fails to check if either repair is absent. -/
 theorem tree_has_ping_fix : Gen.pingFix = true := by decide
 theorem tree_sanitizes_lines : Gen.lineSanitized = true := by decide
 theorem tree_nesting_limit : Gen.maxNesting = maxNesting := by decide
-theorem tree_caps_reserve : Gen.reserveCapped = true := by decide
+theorem tree_caps_reserve : Gen.reserveCapped = true ∧ Gen.reserveMax = reserveMax := by decide
 
 /-! ### Witnesses: the two statements are false for the parser as pinned -/
 
